@@ -706,3 +706,8 @@ def sample_view(r):
         "event_log": r.get("log"),
         "violations": r.get("violations"),
     }
+
+
+
+def describe(plan):
+    return "overrides: %r   pipeline: %s   sampler: %s   hardware encoding: %s   bounding gates: %s" % (plan["overrides"], plan["pipeline"], plan["sampler_mode"], plan["hw_encoding"], plan["bounding"])
